@@ -1,6 +1,7 @@
 package main
 
 import (
+	"runtime"
 	"bytes"
 	"context"
 	"fmt"
@@ -226,7 +227,17 @@ func raceSolvers(file string, timeoutS int) (winner solverSpec, result, text str
 	return solverSpec{}, "", "", all, ms
 }
 
+// solverSlots: at most one solver process per core at any time, however many obligations, races and lemma
+// attempts are in flight; a solver's time budget then measures its own work, not its share of a crowded machine.
+var solverSlots = make(chan struct{}, runtime.NumCPU())
+
 func runSolverCtx(parent context.Context, s solverSpec, file string, timeoutS int) (string, string, int64) {
+	select {
+	case solverSlots <- struct{}{}:
+	case <-parent.Done():
+		return "cancelled", "", 0
+	}
+	defer func() { <-solverSlots }()
 	t0 := time.Now()
 	ctx, cancel := context.WithTimeout(parent, time.Duration(timeoutS+5)*time.Second)
 	defer cancel()
@@ -298,6 +309,7 @@ func discharge(obs []*Obligation, opt solveOpts) {
 				return
 			}
 			var results []string
+			scalarTried := false
 			sliceStart := 0
 			trySlice := func(defsOnly bool, to int) bool {
 				keep := o.sliceFrom(defsOnly, sliceStart)
@@ -318,6 +330,24 @@ func discharge(obs []*Obligation, opt solveOpts) {
 				}
 				results = append(results, "slice:"+r)
 				return false
+			}
+			if !o.Cover && o.vc.nonlinear && o.pos > 800 {
+				// arithmetic at heart (the code multiplies or divides by variables): see scalarSlice
+				os.WriteFile(file, []byte(o.query(false)), 0o644)
+				r, _, ms := runSolver(solvers[0], file, 3)
+				o.Ms += ms
+				if r == "unsat" {
+					o.Result, o.Backend = "unsat", solvers[0].name
+					os.Remove(file)
+					return
+				}
+				if r != "sat" {
+					scalarTried = true
+					if o.scalarSlice(file, opt, &results) {
+						os.Remove(file)
+						return
+					}
+				}
 			}
 			if !o.Cover && o.localFrom > 0 && o.pos > 800 {
 				// invariant preservation in a large function: the loop-local slice first
@@ -347,6 +377,13 @@ func discharge(obs []*Obligation, opt solveOpts) {
 				r, text, ms := runSolver(solvers[0], file, short)
 				o.Ms += ms
 				win := solvers[0]
+				if r != "unsat" && r != "sat" && o.vc.nonlinear {
+					// arithmetic at heart: the scalar slice first (see scalarSlice)
+					if o.scalarSlice(file, opt, &results) {
+						return
+					}
+					scalarTried = true
+				}
 				if r != "unsat" && r != "sat" {
 					var all []string
 					var ms2 int64
@@ -403,6 +440,9 @@ func discharge(obs []*Obligation, opt solveOpts) {
 				return
 			}
 			if !o.Cover && trySlice(false, 10) {
+				return
+			}
+			if !o.Cover && !scalarTried && o.scalarSlice(file, opt, &results) {
 				return
 			}
 			o.Result, o.Backend = "unknown", strings.Join(results, ",")
@@ -475,4 +515,190 @@ func (o *Obligation) infoValues() map[string]int64 {
 		out[k] = v
 	}
 	return out
+}
+
+var memSymRe = regexp.MustCompile(`^(MI|MR|row|zrow|top|vis)_?[0-9]`)
+var loadDefRe = regexp.MustCompile(`^\(= (ld_[0-9]+) \(select \(select (M[IR]_?[0-9]+) (.+)\)\)$`)
+
+// scalarSlice: the last resort for goals that are arithmetic at heart but sit in a large memory context
+// (where the nonlinear and the array reasoning of the solvers get in each other's way).
+//  1. The cone of the goal is computed over scalar symbols only: memory versions are opaque, so the values
+//     loaded from memory stay in the cone but the stores and frames that relate them do not.
+//  2. Two loads of the same cell in different memory versions are candidates for equality; each candidate is
+//     proved on its own against the FULL query (a pure memory question, decided quickly) and only then used.
+//  3. The scalar cone plus the proved equalities is decided.
+// Dropping assertions weakens the hypotheses and every added equality is a consequence of the full set under the
+// same guard, so `unsat` here is a valid discharge of the original obligation.
+func (o *Obligation) scalarSlice(file string, opt solveOpts, results *[]string) bool {
+	vc := o.vc
+	rel := map[string]bool{}
+	for _, id := range identRe.FindAllString(o.guard+" "+o.formula, -1) {
+		if vc.symDeclared[id] && !memSymRe.MatchString(id) {
+			rel[id] = true
+		}
+	}
+	keep := map[int]bool{}
+	for pass := 0; pass < 6; pass++ {
+		changed := false
+		for i := o.pos - 1; i >= 0; i-- {
+			if keep[i] {
+				continue
+			}
+			a := vc.asserts[i]
+			if strings.Contains(a, "(forall ") || strings.Contains(a, "(exists ") {
+				continue
+			}
+			hit := false
+			for _, sy := range vc.assertSyms[i] {
+				if rel[sy] {
+					hit = true
+					break
+				}
+			}
+			if !hit {
+				continue
+			}
+			mem := false
+			for _, sy := range vc.assertSyms[i] {
+				if memSymRe.MatchString(sy) {
+					mem = true
+				}
+			}
+			if m := loadDefRe.FindStringSubmatch(a); m != nil {
+				if !rel[m[1]] {
+					continue
+				}
+				keep[i] = true // the load stays (its memory is opaque); its address symbols join the cone
+				for _, sy := range vc.assertSyms[i] {
+					if !memSymRe.MatchString(sy) && !rel[sy] {
+						rel[sy] = true
+						changed = true
+					}
+				}
+				continue
+			}
+			if mem {
+				continue
+			}
+			if strings.HasPrefix(a, "(= ") {
+				name := a[3:]
+				if j := strings.IndexByte(name, ' '); j > 0 {
+					name = name[:j]
+				}
+				if vc.symDeclared[name] && !rel[name] {
+					continue
+				}
+			}
+			keep[i] = true
+			changed = true
+			for _, sy := range vc.assertSyms[i] {
+				rel[sy] = true
+			}
+		}
+		if !changed {
+			break
+		}
+	}
+	// candidate equalities: same cell, different memory version
+	type ld struct{ name, mem, addr string }
+	groups := map[string][]ld{}
+	var order []string
+	coneAddr := map[string]bool{}
+	for i := 0; i < o.pos; i++ {
+		if keep[i] {
+			if m := loadDefRe.FindStringSubmatch(vc.asserts[i]); m != nil {
+				coneAddr[m[2][:2]+"|"+m[3]] = true
+			}
+		}
+	}
+	for i := 0; i < o.pos; i++ {
+		if m := loadDefRe.FindStringSubmatch(vc.asserts[i]); m != nil {
+			k := m[2][:2] + "|" + m[3]
+			if !coneAddr[k] {
+				continue
+			}
+			keep[i] = true // reads of a cell the cone reads: links of the equality chains
+			if _, ok := groups[k]; !ok {
+				order = append(order, k)
+			}
+			groups[k] = append(groups[k], ld{m[1], m[2], m[3]})
+		}
+	}
+	var lemmas []string
+	full := o.query(false)
+	cut := strings.LastIndex(full, "(assert (not ")
+	if cut < 0 {
+		return false
+	}
+	// candidates: each read against the previous read of the same cell (chains of equal reads), decided in parallel
+	type cand struct{ a, b string }
+	var cands []cand
+	for _, k := range order {
+		g := groups[k]
+		for j := 1; j < len(g) && len(cands) < 96; j++ {
+			if g[j].mem == g[j-1].mem {
+				lemmas = append(lemmas, fmt.Sprintf("(= %s %s)", g[j-1].name, g[j].name))
+				continue
+			}
+			cands = append(cands, cand{g[j-1].name, g[j].name})
+			if j >= 2 && g[j].mem != g[0].mem {
+				cands = append(cands, cand{g[0].name, g[j].name}) // a second way round a link that does not prove in time
+			}
+		}
+	}
+	proved := make([]bool, len(cands))
+	var lwg sync.WaitGroup
+	lsem := make(chan struct{}, 8)
+	var lms int64
+	var lmu sync.Mutex
+	for ci, c := range cands {
+		lwg.Add(1)
+		lsem <- struct{}{}
+		go func(ci int, c cand) {
+			defer lwg.Done()
+			defer func() { <-lsem }()
+			lf := fmt.Sprintf("%s.lemma%d.smt2", file, ci)
+			os.WriteFile(lf, []byte(full[:cut]+fmt.Sprintf("(assert (not (= %s %s)))\n(check-sat)\n", c.a, c.b)), 0o644)
+			r, _, ms := runSolver(solvers[0], lf, 8)
+			os.Remove(lf)
+			lmu.Lock()
+			if ms > lms {
+				lms = ms
+			}
+			lmu.Unlock()
+			proved[ci] = r == "unsat"
+		}(ci, c)
+	}
+	lwg.Wait()
+	o.Ms += lms
+	for ci, c := range cands {
+		if proved[ci] {
+			lemmas = append(lemmas, fmt.Sprintf("(= %s %s)", c.a, c.b))
+		}
+	}
+	sfile := file + ".scalar.smt2"
+	q := o.queryWith(false, keep)
+	c2 := strings.LastIndex(q, "(assert (not ")
+	if c2 < 0 {
+		return false
+	}
+	var sb strings.Builder
+	sb.WriteString(q[:c2])
+	for _, l := range lemmas {
+		sb.WriteString("(assert " + l + ")\n")
+	}
+	sb.WriteString(q[c2:])
+	os.WriteFile(sfile, []byte(sb.String()), 0o644)
+	defer os.Remove(sfile)
+	if d := os.Getenv("GVC_DUMPSLICE"); d != "" {
+		os.WriteFile(filepath.Join(d, "scalar_"+sanitize(o.Name)+".smt2"), []byte(sb.String()), 0o644)
+	}
+	win, r, _, all, ms := raceSolvers(sfile, opt.timeoutS)
+	o.Ms += ms
+	if r == "unsat" {
+		o.Result, o.Backend = "unsat", fmt.Sprintf("%s (scalar slice: %d of %d assertions + %d proved load equalities)", win.name, len(keep), o.pos, len(lemmas))
+		return true
+	}
+	*results = append(*results, "scalar-slice:"+r+strings.Join(all, ","))
+	return false
 }
